@@ -182,7 +182,7 @@ def expand(cfg: CFG, node: Node, expr, depth=6, stop=()):
                 if d is node:
                     ok = False
                     break
-                if not _clear_between(cfg, d, node, nm, w):
+                if w == nm or not _clear_between(cfg, d, node, nm, w):
                     # operand changes after the definition: usable only if it was the entry value there
                     if len(ds) == 1 and [x for x in cfg.reaching(d, w)] == [cfg.entry]:
                         ren[w] = w + "__in"
